@@ -8,6 +8,9 @@ Inductive case :=
 | Hist (answers : list (str * str * str)) (root_before root_after : str)
 (* address generator: the sends, the yielded path strings *)
 | Gen (sends : list (option Z)) (paths : list str) (prefix : str)
+(* a second generator with another address function on a node an earlier generator already walked:
+   (path, address) pairs it yields on the shared wallet, and the same computed statelessly on a fresh wallet *)
+| GenA (shared fresh : list (str * str))
 (* effects table flags computed by the audit *)
 | Flag (ok : bool).
 
@@ -28,5 +31,8 @@ Definition check_case (c : case) : Z :=
   | Gen sends paths prefix =>
       verdict true ((List.length paths =? S (List.length sends))%nat &&
                     forallb (fun p => beq_bytes (fst p) (snd p)) (combine paths (expected_paths prefix 0 sends)))
+  | GenA shared fresh =>
+      verdict true ((List.length shared =? List.length fresh)%nat &&
+                    forallb (fun p => beq_bytes (fst (fst p)) (fst (snd p)) && beq_bytes (snd (fst p)) (snd (snd p))) (combine shared fresh))
   | Flag ok => verdict true ok
   end.
